@@ -319,6 +319,9 @@ func C13_NoFileSystem() {
 		vf.Assert(err == nil, "a name in the module map resolves")
 	} else {
 		vf.Assert(err != nil && contains(err.Error(), "not found"), "an unknown name fails with 'module not found'")
+		// the file-import branch reports "module file path error" / "module file
+		// read error": seeing one of them means the file system was consulted
+		vf.Assert(!contains(err.Error(), "module file"), "an unknown name is rejected without consulting the file system: "+err.Error())
 	}
 	vf.Reach("nofs")
 }
